@@ -991,9 +991,11 @@ def rand_init(rng, small=False):
     return {"lines": lines, "idx": idx, "cur": cur, "ro": int(rng.random() < 0.15), "hs": int(rng.random() < 0.3)}
 
 
-def track(op, n, nlines):
-    """generator-side bookkeeping of (some upper bound of) text length and number of lines"""
-    if op[0] == "appendleft":
+def track(op, n, nlines, program=False):
+    """generator-side bookkeeping of (some upper bound of) text length and of the number of working
+    lines.  Inside a handler program an op may be skipped (an earlier op raised), so `nlines` must
+    stay a LOWER bound there: an `appendleft` is not counted."""
+    if op[0] == "appendleft" and not program:
         nlines += 1
     if op[0] == "reset":
         nlines = 1
@@ -1071,13 +1073,13 @@ def gen_call_cases(tier, rng):
             if r < 0.2:
                 h = rand_hop(rng, n, nlines)
                 steps.append(["hop", h])
-                n, nlines = track(h, n, nlines)
+                n, nlines = track(h, n, nlines, program=True)
             elif r < 0.93 or accepted:
                 prog = []
                 for _ in range(rng.randrange(0, 5)):
                     h = rand_hop(rng, n, nlines)
                     prog.append(h)
-                    n, nlines = track(h, n, nlines)
+                    n, nlines = track(h, n, nlines, program=True)
                 steps.append(["call", int(rng.random() < 0.5), prog])
             else:
                 v = rng.choice([None, None, 0, -3, n + 4, 1])
